@@ -159,7 +159,7 @@ fn gen_case_inner(rng: &mut Rng) -> Value {
         "solve" | "solve_left" | "inv" | "solve_vec" => {
             let n = match rng.below(8) { 0 => 0, 1 => 1, _ => 2 + rng.below(nmax - 1) as usize };
             let (a, _) = gen_triangular(rng, ring, n, upper);
-            let k = match kind { "solve_vec" => 1, _ => match rng.below(6) { 0 => 0, 1 => 1, _ => 2 + rng.below(29) as usize } };
+            let k = match kind { "solve_vec" => 1, _ => match rng.below(12) { 0 | 1 => 0, 2 | 3 => 1, 4 => 40 + rng.below(80) as usize, _ => 2 + rng.below(29) as usize } };
             let y = match kind {
                 "solve_left" => gen_rect(rng, ring, k, n, false),
                 "inv" => json!(null),
@@ -466,8 +466,17 @@ where
     rep.counters.insert("multi_worker_runs".into(), (st.max_workers_used >= 2) as u64);
     rep.counters.insert(format!("kind:{}", rep.outcome_class), 1);
     let (one, many) = match (one, many) {
-        (Err(a), _) => { rep.violation = Some(abort_to_violation(&a)); rep.outcome_class += "/abort"; return rep; }
-        (_, Err(a)) => { rep.violation = Some(abort_to_violation(&a)); rep.outcome_class += "/abort"; return rep; }
+        (Err(a), _) | (_, Err(a)) => {
+            let v = abort_to_violation(&a);
+            if is_machine_overflow(&v) && matches!(R::NAME, "Z" | "Q" | "ZH" | "ZI") {
+                rep.counters.insert("machine_overflow_skipped".into(), 1);
+                rep.outcome_class += "/overflow";
+            } else {
+                rep.violation = Some(v);
+                rep.outcome_class += "/abort";
+            }
+            return rep;
+        }
         (Ok(a), Ok(b)) => (a, b),
     };
     rep.outcome_digest = digest_out(&many);
